@@ -286,6 +286,9 @@ inductive Rec
   | iterall (kind : Kind) (cur : DCur) (obs : IObs)
   | roundtrip (same : Bool)
   | codec (ok : Bool)
+  /-- a read-only request between the others (resources/read, tools/call, prompts/get, completion,
+  ping); `touch`: the feature set whose sorted index the request walks (template lookup), if any -/
+  | readonly (touch : Option Kind)
 
 structure MKind where
   reg : List Item := []
@@ -375,6 +378,7 @@ def monStep (s : MState) : Rec → MState × Option Clause
       (s, if obs = iterAll (specOracle k.reg s.p) cur (2 * k.reg.length + 8) then none else some .iterManual)
   | .roundtrip same => (s, if same then none else some .codecLaw)
   | .codec ok => (s, if ok then none else some .codecCrash)
+  | .readonly _ => (s, none)   -- what is registered, and hence every later answer, is unaffected
 
 /-- Run the monitor over a trace: the first record (index) at which a clause is reported. -/
 def runMonFrom : MState → Nat → List Rec → Option (Nat × Clause)
